@@ -15,7 +15,10 @@
 (* C13: an accepted point never ends in raised / prepare_failed / insane;   *)
 (* every other combination ends in ctor_error or refused, by ValueError     *)
 (* only, with the recipe store unchanged; under '*' an unsupported pair is  *)
-(* skipped and the operator left untouched.                                 *)
+(* skipped and the operator left untouched - and '*' applies the config to   *)
+(* an operator exactly when an update naming that operator accepts it        *)
+(* (StarConsistent), also on a Quantizer whose '*' rule has been replaced    *)
+(* many times before (reused traces: built -> accepted -> applied | skipped).*)
 (***************************************************************************)
 EXTENDS Integers, Sequences, FiniteSets, TLC, Json, IOUtils
 
@@ -52,9 +55,12 @@ OnlyValueError == \A k \in 1..(l-1) : T.events[k].ev \in {"ctor_error", "refused
 RefusalNoop == st = "refused" => rules = 0
 StarAlwaysAccepts == (T.star /\ st = "refused") => FALSE
 NoLateFailure == st \notin {"raised", "prepare_failed", "insane", "bad_skipped"}
+\* every resolution event carries `specific`: "yes" / "no" = an update naming the operator accepts / refuses this config
+StarConsistent == \A k \in 1..(l-1) : /\ (T.events[k].ev = "applied" => T.events[k].specific # "no")
+                                      /\ (T.events[k].ev = "skipped" => T.events[k].specific # "yes")
 Verdict == [id |-> T.id, consumed |-> l - 1, len |-> Len(T.events), st |-> st,
             only_value_error |-> OnlyValueError, refusal_noop |-> RefusalNoop, star_accepts |-> StarAlwaysAccepts,
-            no_late_failure |-> NoLateFailure]
+            no_late_failure |-> NoLateFailure, star_consistent |-> StarConsistent]
 \* emitted at the last state of each trace (the trace is accepted iff consumed = len)
 Emit == (Final \/ ~ENABLED Next) => PrintT(<<"VERDICT", ToJson(Verdict)>>)
 =============================================================================
